@@ -109,7 +109,9 @@ class Ctx:
         os.makedirs(d, exist_ok=True)
         return d
 
-    def run_cli(self, args, own_home=False, cwd=None, timeout=180, prefix=None):
+    def run_cli(self, args, own_home=False, cwd=None, timeout=None, prefix=None):
+        # a sector-offset table damaged in place costs the reader ~25 s per file before it gives up (seen in the thorough MPQ sweep): generous budget
+        timeout = timeout or (900 if self.thorough else 240)
         env = self.env
         if own_home:
             env = self._env(self.newdir("home"))
@@ -170,10 +172,11 @@ def tree_of(root):
 
 # ----------------------------------------------------------------------------------- journaled helper runs
 
-def run_journaled(ctx, base_cmd, journal, kind_done=("F", "V", "A"), stall=90.0, env_extra=None, reemit=False):
+def run_journaled(ctx, base_cmd, journal, kind_done=("F", "V", "A"), stall=None, env_extra=None, reemit=False):
     """Run a helper that writes B/<done>/D lines; restart behind an item whose library call killed or stalled the process.
     Returns (events, crashed: {index: 'abort'|'hang'})."""
     crashed, start, guard = {}, 0, 0
+    stall = stall or (420.0 if ctx.thorough else 120.0)
     env = dict(ctx.env)
     env["RUST_LOG"] = "off"
     if env_extra:
